@@ -131,6 +131,11 @@ func checkNoEscalation(c *mon.Ctx, t *ref.VersionTraits, creators []string, cur,
 	if cur == nil {
 		o.users[creators[0]] = inf - 1
 	}
+	if t.IntegerPLs && n.hasNull {
+		// JSON null in the place of a level, or of a map of levels, is present and is not an integer
+		c.Failf("pl:non-integer-level-accepted:null", "%s: accepted v%s power-levels event has null where a level or a map of levels belongs: %s", ctx, t.Version, gen.Describe(proposed))
+		return
+	}
 	if o.hasNull || n.hasNull || o.unparsable {
 		c.Count("step_abstained_null")
 		return
